@@ -313,9 +313,131 @@ def s_pairs2(tier, rng, evs=EVS, mode='eval'):
                     out.append(case(ev, mode, None, f + '(' + a + ',' + b + ')'))
     return out
 
+def s_longpad(tier, rng, evs=EVS):
+    """long inputs whose byte length sweeps across typical buffer / truncation sizes (16, 32, 64, 128, 255, 256) with
+       multi-byte characters at every alignment, ending in each outcome class: Ok, evaluation error, parse error, lexing error"""
+    out = []
+    for ev in evs:
+        heads = {'f64': ['w(-10)', '1', '(1', '1x'], 'number': ['w(-10)', '1', '(1', '1x'], 'i64': ['1/0', '1', '(1', '1x'],
+                 'decimal': ['1/0', '1', '(1', '1x'], 'complex': ['1', '(1', '1x']}[ev]
+        tails = ['', '+π', '²', '+2²'] + (['+⌊1⌋', '*⌈2⌉'] if gen.HAS_FLOORBR[ev] else []) + (['°'] if gen.POSTFIX5[ev] else [])
+        if ev == 'i64':
+            tails = ['', '²', '+2²', '+7']
+        for h in heads:
+            for t in tails:
+                for target in (14, 15, 16, 17, 30, 31, 32, 33, 62, 63, 64, 65, 66, 126, 127, 128, 129, 130, 250, 253, 254, 255, 256):
+                    for fill in ('+1', '+11'):
+                        k = max(0, (target - len((h + t).encode('utf-8'))) // len(fill))
+                        e = h + fill * k + t
+                        if len(e) <= 256:
+                            out.append(case(ev, 'eval', None, e))
+                        # the multi-byte character in the middle as well
+                        e2 = h + fill * (k // 2) + t + fill * (k - k // 2)
+                        if len(e2) <= 256 and t:
+                            out.append(case(ev, 'eval', None, e2))
+    return out
+
+def longlit_runs():
+    """digit runs of every length 1..70: zero padded, a one followed by zeros, cycling digits, all nines"""
+    out = []
+    for L in list(range(1, 71)) + [100, 200]:
+        out.append('0' * (L - 1) + '3')
+        out.append('1' + '0' * (L - 1))
+        out.append(('1234567890' * 21)[:L])
+        if L > 1:
+            out.append('0' * (L - 2) + '10')
+        if L in (9, 10, 18, 19, 20, 28, 29, 30, 38, 39, 40):
+            out.append('9' * L)
+    return list(dict.fromkeys(out))
+
+def s_longlits(tier, rng, evs=EVS, mode='eval'):
+    """every run above as a literal, a fraction, an exponent and a superscript run (length limits / chunking in the
+       literal readers: 9, 10, 18, 19, 20, 28, 29, 30, 38, 39 digits are where fixed-width accumulators end)"""
+    out = []
+    for ev in evs:
+        for r in longlit_runs():
+            sup = ''.join(gen.SUP[int(ch)] for ch in r)
+            for e in [r, r + '+1', '0.' + r, r + '.5', '2^' + r, '2' + sup, '1' + sup, '(1)' + sup + '+1', '1.' + r + sup[:2]]:
+                if len(e) <= 256:
+                    out.append(case(ev, mode, None, e))
+    return out
+
+def s_powgrid(tier, rng, evs=('i64', 'number')):
+    """b^e, pow(b,e), b<<e, b>>e for every small base and every exponent 0..66: each point where the exact result crosses the type's range"""
+    out = []
+    for ev in evs:
+        for b in range(-17, 18):
+            bs = str(b) if b >= 0 else '(%d)' % b
+            for e in range(0, 67):
+                out.append(case(ev, 'eval', None, bs + '^' + str(e)))
+                if b in (-2, 2, -3, 3, 10, -10, 7, -1):
+                    out.append(case(ev, 'eval', None, 'pow(' + bs + ',' + str(e) + ')'))
+                    out.append(case(ev, 'eval', ('I' if ev == 'number' else '') + str(b), '@^' + str(e)))
+                    out.append(case(ev, 'eval', ('I' if ev == 'number' else '') + str(e), bs + '^@'))
+                if ev == 'i64':
+                    out.append(case(ev, 'eval', None, bs + '<<' + str(e)))
+                    out.append(case(ev, 'eval', None, bs + '>>' + str(e)))
+        for b in [3037000499, 3037000500, 2097151, 2097152, 55108, 55109, 6208, 6209, 1448, 1449, 511, 512, 4294967296, 9223372036854775807]:
+            for sg in ['%d', '(-%d)']:
+                for e in range(0, 8):
+                    out.append(case(ev, 'eval', None, (sg % b) + '^' + str(e)))
+    return out
+
+FUSE_POOL = {'f64': ['171', '170', '0.5', '0', '(-1)', '3', '0.1', '1' + '0' * 200],
+             'number': ['171', '170', '0.5', '0', '(-1)', '3', '21', '20'],
+             'i64': ['21', '20', '3', '0', '(-1)', '63', '2', '9223372036854775807'],
+             'decimal': ['28', '26', '27', '3', '0.5', '0', '(-1)', '79228162514264337593543950335'],
+             'complex': ['2', '0.5', '0', '(-1)', 'i', '(3+i)', '0.1', '1000000']}
+
+def unary_forms(ev):
+    u = [f + '(%s)' for f in gen.F1[ev]] + ['(%s)' + pf for pf in (['!'] if gen.HAS_BANG[ev] else []) + gen.POSTFIX5[ev] + ['²', '³']] + ['(-%s)', '(%s)']
+    u += ([f + '(%s,2)' for f in gen.F2[ev]] + [f + '(2,%s)' for f in gen.F2[ev][:3]])
+    if gen.HAS_FLOORBR[ev]:
+        u += ['⌊%s⌋', '⌈%s⌉']
+    return u
+
+def s_fusion(tier, rng, evs=EVS, only=None):
+    """binary parent over two child operations, U1(a) op U2(b): the same child operation on both sides for every operation
+       and operator (n!/k!, ln a - ln b, sqrt a * sqrt b, exp a * exp b, a^2 - b^2 ...: the shapes an algebraic shortcut keys on),
+       different ones sampled; operands include those on which a child fails or overflows alone"""
+    out = []
+    for ev in evs:
+        U = unary_forms(ev)
+        if only:
+            U = [u for u in U if any(u.startswith(o) for o in only)]
+        ops = list(gen.BINOPS[ev].keys()) if ev != 'complex' else ['+', '-', '*']     # one-NaN limit of the wire format
+        pool = FUSE_POOL[ev]
+        for u in U:
+            for op in ops:
+                for a in pool:
+                    for b in pool:
+                        out.append(case(ev, 'eval', None, (u % a) + op + (u % b)))
+        for f in gen.F2[ev] + gen.FV[ev][:3]:
+            for u in U:
+                for a in pool[:5]:
+                    for b in pool[:5]:
+                        out.append(case(ev, 'eval', None, f + '(' + (u % a) + ',' + (u % b) + ')'))
+        for _ in range(1500 if tier == 'quick' else 15000):
+            u1, u2 = rng.choice(U), rng.choice(U)
+            out.append(case(ev, 'eval', None, (u1 % rng.choice(pool)) + rng.choice(ops) + (u2 % rng.choice(pool))))
+    return out
+
+def s_aggmix(tier, rng, evs=('f64', 'i64', 'decimal', 'number')):
+    """aggregates whose arguments mix failing, non-finite / NaN-valued and ordinary arguments in every order"""
+    sp = {'f64': ['w(-1)', '0/0', '1/0', '-1/0', 'sqrt(-4)', '3', '(-0.0)'], 'number': ['w(-1)', '0/0', '1/0', '1%0', 'sqrt(-4)', '3', '7'],
+          'i64': ['1/0', '21!', '1<<64', '3', '(-4)', '9223372036854775807'], 'decimal': ['1/0', 'w(-1)', '28!', 'ln(0)', '3', '(-4)', '0.5']}
+    out = []
+    for ev in evs:
+        for f in gen.FV[ev]:
+            for a in sp[ev]:
+                for b in sp[ev]:
+                    for args in ([a, b], [a, '1', b], ['1', a, b], [a, b, '2'], ['2', a, '1', b, '3']):
+                        out.append(case(ev, 'eval', None, f + '(' + ','.join(args) + ')'))
+    return out
+
 def run_C01(tier, rng, stats):
-    cs = (s_oppool(tier, rng) + s_pairs2(tier, rng) + s_tokseq(tier, rng) + s_tokseq_full(tier, rng) + s_chars(tier, rng) + s_wf(tier, rng, nq=250, nt=2500) +
-          s_mut(tier, rng, nq=250, nt=2500) + s_badlits(tier, rng) + s_aggfail(tier, rng) + s_loops(tier, rng))
+    cs = (s_oppool(tier, rng) + s_pairs2(tier, rng) + s_longpad(tier, rng) + s_tokseq(tier, rng) + s_tokseq_full(tier, rng) + s_chars(tier, rng) + s_wf(tier, rng, nq=250, nt=2500) +
+          s_mut(tier, rng, nq=250, nt=2500) + s_badlits(tier, rng) + s_aggfail(tier, rng) + s_aggmix(tier, rng) + s_longlits(tier, rng) + s_loops(tier, rng))
     stats['rule'] = ('all token sequences <= %d (small alphabet) and <= %d (full alphabet), all strings <= %d chars over a lexer alphabet, '
                      'grammar-directed random expressions x placeholder pool, near-miss mutants, malformed literals, aggregates around failing '
                      'arguments, looping constructs over extreme operands; all five evaluators, debug and release; non-trivial = model outcome is not a lex/parse error'
@@ -433,7 +555,7 @@ def run_C02(tier, rng, stats):
 def run_C03(tier, rng, stats):
     cs = (s_tokseq(tier, rng, qlen=4, tlen=5) + s_tokseq_full(tier, rng) + s_chars(tier, rng) + s_nearmiss_chars(tier, rng) + s_keywords(tier, rng) +
           s_wf(tier, rng, nq=300, nt=3000) + s_mut(tier, rng, nq=400, nt=4000) +
-          s_tokseq(tier, rng, mode='ast', qlen=3, tlen=4) + s_chars(tier, rng, mode='tokens'))
+          s_tokseq(tier, rng, mode='ast', qlen=3, tlen=4) + s_chars(tier, rng, mode='tokens') + s_longlits(tier, rng, mode='tokens') + s_longlits(tier, rng))
     stats['rule'] = ('all token sequences <= %d over a representative alphabet incl. a foreign character and a foreign keyword, all strings <= 3/4 chars, '
                      'every keyword of the union vocabulary in every evaluator (alone, followed by each character class, near misses, wrong arity), '
                      'random well-formed expressions and near-miss mutants; outcomes, token streams and ASTs compared' % (4 if tier == 'quick' else 5))
@@ -441,7 +563,7 @@ def run_C03(tier, rng, stats):
     res = std_judge('C03', cases, outs, model)
     kernel_crosscheck(res, stats, cases, model, tier, rng)
     # the lexer-level streams also in the release build (debug_assert!-only side effects, cfg(debug_assertions) code)
-    rel = s_chars(tier, rng) + s_nearmiss_chars(tier, rng) + s_keywords(tier, rng, mode='eval') + s_wf(tier, rng, nq=300, nt=3000)
+    rel = s_chars(tier, rng) + s_nearmiss_chars(tier, rng) + s_keywords(tier, rng, mode='eval') + s_wf(tier, rng, nq=300, nt=3000) + s_longlits(tier, rng)
     rc, ro, rm = run_streams(rel, stats, profiles=('release',))
     merge(res, std_judge('C03', rc, ro, rm))
     return res
@@ -481,7 +603,7 @@ def s_oppairs(tier, rng, evs=EVS):
     return out
 
 def run_C04(tier, rng, stats):
-    cs = (s_oppairs(tier, rng) + s_tokseq(tier, rng, mode='ast', qlen=4, tlen=5) +
+    cs = (s_oppairs(tier, rng) + s_tokseq(tier, rng, mode='ast', qlen=4, tlen=5) + s_longlits(tier, rng, mode='ast') +
           sum([s_wf(tier, rng, evs=[ev], nq=250, nt=2500, depth=6, lits=EXACT_LITS[ev], funcs=False, phs=False) for ev in EVS], []) +
           sum([s_wf(tier, rng, evs=[ev], mode='ast', nq=250, nt=2500, depth=6, lits=EXACT_LITS[ev], phs=False) for ev in EVS], []))
     stats['rule'] = ('every pair%s of adjacent binary operators x prefix signs x postfix operators with small exact operands (values and ASTs), '
@@ -510,6 +632,7 @@ def run_C05(tier, rng, stats):
         for x in pool + [2.5, 3.5, -3.5, 0.49999999999999994, 4503599627370497.5, -0.2, 1e-320]:
             cs.append(case('f64', 'eval', f2w(x), f + '(@)'))
             cs.append(case('f64', 'eval', f2w(x), '-' + f + '(-@)'))
+    cs += s_fusion(tier, rng, evs=['f64'], only=C05_F1 + ['(', 'pow', 'mod', '⌊', '⌈'])
     cs += [case('f64', 'eval', f2w(x), e) for x in pool for e in ['-@', '--@', '-(-@)', '0-@', 'pi*@', 'e^@', '@^0.5', 'pow(@,2)', 'mod(@,3)', '⌊@⌋', '⌈@⌉']]
     stats['rule'] = ('random trees over + - * / % unary minus ^ abs floor ceil trunc round sqrt pi e literals @ brackets with operands from the boundary pool '
                      '(subnormals, 2^53 and 2^63 neighbours, huge/tiny literals, NaN/inf/-0 placeholders), plus every operator on all pool pairs; bit-exact')
@@ -540,6 +663,7 @@ def run_C06(tier, rng, stats):
     for x in pool:
         for e in ['-@', 'abs(@)', 'sgn(@)', '@!', '-@!', '(-@)!', 'pow(@,2)', 'pow(2,@)', 'mod(@,3)', 'mod(3,@)', '@²', '@^@', '2^@', '@<<1', '1<<@', '@>>@', '--@']:
             cs.append(case('i64', 'eval', str(x), e))
+    cs += s_powgrid(tier, rng, evs=['i64']) + s_fusion(tier, rng, evs=['i64'])
     stats['rule'] = ('random integer expressions over + - * / % ^ & | << >> unary minus abs sgn mod pow n! with operands from the i64 boundary pool, '
                      'every binary operator on all pool pairs (via the placeholder, so negative operands too), debug and release builds; exact')
     cases, outs, model = run_streams(cs, stats, profiles=('debug', 'release'))
@@ -582,6 +706,7 @@ def run_C09(tier, rng, stats):
         sa, sb = rng.choice([1, -1]), rng.choice([1, -1])
         for op in ['+', '-', '*']:
             cs.append(case('number', 'eval', 'I%d' % (sa * a), '@' + op + ('(-%d)' % b if sb < 0 else str(b))))
+    cs += s_powgrid(tier, rng, evs=['number']) + s_fusion(tier, rng, evs=['number'], only=['abs', 'sgn', 'floor', 'ceil', 'round', 'trunc', 'sqrt', '(', 'pow', 'mod', '⌊', '⌈'])
     stats['rule'] = ('random mixed Integer/Float expressions over the boundary pools of both types, every arithmetic operator on all (placeholder, literal) pairs, Integer pairs near the i64 range with arbitrary low bits, '
                      'rounding functions on halves / negative fractions / 2^63 neighbours; variant and bits compared')
     cases, outs, model = run_streams(cs, stats, profiles=('debug', 'release'))
@@ -927,6 +1052,13 @@ def run_C13(tier, rng, stats):
             sup = ''.join(gen.SUP[int(ch)] for ch in N)
             for tail_l, tail_r in [('', ''), ('', '+1'), ('', '*3'), ('(', ')'), ('2-', '/2'), ('abs(', ')'), ('pow(', ',2)')] + ([('', '°')] if gen.POSTFIX5[ev] else []):
                 pairs.append((case(ev, 'eval', ph, tail_l + P + sup + tail_r), case(ev, 'eval', ph, tail_l + P + '^' + N + tail_r), 'superscript'))
+    # superscript runs of every length (zero padded, long, cycling digits) against ^N
+    for ev in EVS:
+        for r in longlit_runs():
+            sup = ''.join(gen.SUP[int(ch)] for ch in r)
+            for P, tl, tr in [('2', '', ''), ('1', '', '+1'), ('(1)', '2*', ''), ('2', '(', ')')]:
+                if len(tl + P + '^' + r + tr) <= 256:
+                    pairs.append((case(ev, 'eval', None, tl + P + sup + tr), case(ev, 'eval', None, tl + P + '^' + r + tr), 'superscript'))
     # every white-space character, every position of a fixed expression
     for ev in EVS:
         base = {'f64': 'sin(1.5)+2', 'i64': 'gcd(12,18)+2', 'decimal': 'abs(1.5)+2', 'complex': 'sin(1.5)+2i', 'number': 'sin(1.5)+2'}[ev]
@@ -1080,6 +1212,7 @@ def run_C20(tier, rng, stats):
                     first.append(case(ev, 'eval', None, E))
                     for C in parents:
                         triples.append((ev, C, E, gen.default_ph(ev)))
+    first += s_fusion(tier, rng)
     cases, outs, model = run_streams(first, stats)
     res = std_judge('C20', cases, outs, model)
     idx = {c: i for i, c in enumerate(cases)}
@@ -1232,7 +1365,7 @@ def run_C11(tier, rng, stats):
             for e in ['med(@,@)', 'avg(@,@)', 'med(0,@,@,1)', 'min(@,@)', 'max(@,@)', 'med(@,@+@)', 'avg(@,@,@)', 'med(@,-@)', 'avg(@,-@)', 'med(@,0)', 'avg(@,1)',
                       'min(@,-@)', 'max(-@,@)', 'med(@,@,@)', 'med(1,@,@,@)', 'max(@,0,1)', 'min(0,@,1)']:
                 cs.append(case(ev, 'eval', ph, e))
-    cs += s_aggfail(tier, rng)
+    cs += s_aggfail(tier, rng) + s_aggmix(tier, rng)
     stats['rule'] = ('min max avg med/median (f64 i64 decimal number) and gcd lcm (i64): all argument lists of length <= %d over a pool with duplicates, negatives, zeros and extremes, '
                      'random lists up to 8, all permutations of short lists (a sample beyond); empty lists, dangling commas, failing arguments; '
                      'values also compared with an exact reference computed from the multiset (Python fractions)' % maxlen)
@@ -1285,7 +1418,7 @@ def ask_primsrv(lines):
 def lit_reference(ev, text):
     """independent reading of a plain literal text; None = not decided here"""
     from fractions import Fraction as Fr
-    if text.count('.') > 1 or not text.replace('.', '').isdigit() or text.startswith('.') and ev == 'i64':
+    if text.count('.') > 1 or not text or any(ch not in '0123456789.' for ch in text) or text.startswith('.') and ev == 'i64':
         return None
     if text.startswith('.') and len(text) == 1:
         return None
@@ -1339,7 +1472,8 @@ def run_C19(tier, rng, stats):
         lits.add('.' + ''.join(str(rng.below(10)) for _ in range(16 + rng.below(25))))
         lits.add(str(rng.below(10)) + '.' + ''.join(str(rng.below(10)) for _ in range(16 + rng.below(25))))
     lits.discard('.')
-    cs = []
+    lits |= set(longlit_runs())
+    cs = s_longlits(tier, rng)
     for ev in EVS:
         for l in sorted(lits):
             cs.append(case(ev, 'eval', None, l))
@@ -1369,7 +1503,7 @@ def run_C19(tier, rng, stats):
         if text.count('.') > 1 or text.startswith('.') and False:
             continue
         sig = text.replace('.', '').lstrip('0')
-        if len(sig) <= 28 and len(text.split('.')[1] if '.' in text else '') <= 28 and text.replace('.', '').isdigit():
+        if len(sig) <= 28 and len(text.split('.')[1] if '.' in text else '') <= 28 and text.replace('.', '') and all(ch in '0123456789' for ch in text.replace('.', '')):
             t2 = text if not text.startswith('.') else '0' + text
             want = Fr(t2 if not t2.endswith('.') else t2[:-1])
             if want >= 2**96:
@@ -1482,8 +1616,36 @@ def run_C16(tier, rng, stats):
                                       'why': 'the history runner did not complete'})
             o = o + ['ABORT'] * (len(lines) - len(o))
         outs[prof] = o
-    uniq = list(dict.fromkeys(hist))
+    # cold starts: fresh processes in which 16 threads are released together and nothing has been evaluated before
+    # (lazily filled global tables, once-cells and first-use initialisation race only then); work-heavy cases
+    cold = []
+    for ev in ['f64', 'number']:
+        cold += [case(ev, 'eval', None, '%d!' % k) for k in (170, 169, 168, 167, 166, 165, 150, 100, 60, 30, 25, 21)]
+        cold += [case(ev, 'eval', None, e) for e in ['5.0!', '2.5!', '(-1.5)!', 'w(3)', 'ilog(1000000,2)', 'sin(1)+cos(2)', '2^0.5', 'med(3,1,2,5)']]
+    cold += [case('i64', 'eval', None, e) for e in ['20!', '19!', 'gcd(9223372036854775807,3037000500)', 'lcm(4294967296,3)', '2^62', '63!', 'sqrt(1000000)']]
+    cold += [case('decimal', 'eval', None, e) for e in ['27!', '26!', '20!', '2.5!', 'sqrt(2)', 'exp(3)', 'ln(10)', 'w(2)', '1/3', 'pi*e']]
+    cold += [case('complex', 'eval', None, e) for e in ['(1+i)^5', 'sqrt(2i)', 'exp(i*pi)', 'ln(3+4i)']]
+    cold_lines = ['\t'.join(c) for c in cold]
+    cold_runs = 8 if tier == 'quick' else 100
+    cold_out = []
+    for prof in ('debug', 'release'):
+        exe = os.path.join(vlib.ROOT, 'harness/target', prof, 'hist_runner')
+        for r in range(cold_runs):
+            p = subprocess.run([exe, 'cold', '16'], input='\n'.join(cold_lines[r % 3:] + cold_lines[:r % 3]) + '\n', stdout=subprocess.PIPE, text=True, timeout=600, env=vlib.ENV)
+            o = p.stdout.split('\n')[:len(cold_lines)]
+            order = cold[r % 3:] + cold[:r % 3]
+            cold_out.append((prof, order, o + ['ABORT'] * (len(cold_lines) - len(o))))
+    uniq = list(dict.fromkeys(hist + cold))
     model = dict(zip(uniq, vlib.run_model(['\t'.join(c) for c in uniq])))
+    nc = ncd = 0
+    for prof, order, o in cold_out:
+        for c, x in zip(order, o):
+            nc += 1
+            if x != model[c]:
+                ncd += 1
+                res['violations'].append({'kind': 'history-dependent' if x.startswith('NONDET') else 'model-disagreement', 'cases': [list(c)], 'profile': prof, 'observed': x, 'expected': model[c],
+                                          'why': 'cold start (fresh process, 16 threads released together): %r returned %s, the isolated (pure) evaluation is %s' % (dec_expr(c[3]), x, model[c])})
+    res['levels']['cold-start 16 threads x %d fresh processes' % (2 * cold_runs)] = (nc, ncd)
     stats['evaluations'] = stats.get('evaluations', 0) + len(hist) * 2 * 18 + len(uniq)
     stats['distinct_nontrivial'] = stats.get('distinct_nontrivial', 0) + sum(1 for c in uniq if not is_trivial(model[c]))
     stats['samples'] = [{'ev': c[0], 'placeholder': c[2], 'expr': dec_expr(c[3]), 'history_result': outs['debug'][i], 'isolated_model': model[c]}
@@ -1892,6 +2054,9 @@ def run_C07(tier, rng, stats):
     res['levels']['value-vs-exact-rationals'] = (nn, nd)
     stats['rule'] = ('random fully bracketed trees over + - * and unary minus on decimal literals of varied scale and magnitude incl. 27-29 digit boundary literals, and every (a,b) pair of a pool for / and %: '
                      'compared with the model (bit exact incl. the scale) and with exact rational arithmetic (Python fractions)')
+    # parent over two child operations (n!/k!, a^2-b^2 ...): an operand that fails alone makes the whole fail
+    fc, fo, fm = run_streams(s_fusion(tier, rng, evs=['decimal']), stats)
+    merge(res, std_judge('C07', fc, fo, fm))
     l0_dec(tier, rng, stats, res)
     return res
 
